@@ -154,7 +154,9 @@ theorem inv_deliverReset {s : Stream} (h : Inv s) (i : Nat) : Inv (s.step (.deli
   rcases hrs with hst | hst
   · simp only [hst]
     have : ¬ v < s.rcv.largest := by have := h.b6; omega
-    simp only [this, if_false]
+    -- a RESET_STREAM of THIS sender never exceeds the limit: final size = `sentHi ≤ maxData ≤ maxSD`
+    have hlim : ¬ v > s.rcv.maxSD := by have := h.a2.2; have := h.b9.1; omega
+    simp only [this, hlim, if_false]
     exact { h with b3 := fun hz => by simp [Sized] at hz, b4 := ⟨fun x => by simp at x, fun x => by simp at x⟩,
                    b7 := ⟨fun x => by simp at x, h.b7.2⟩, b8 := by simpa [noteErr] using h.b8 }
   · simp only [hst]
